@@ -814,6 +814,15 @@ def rulePODInterval(ts: datetime, p: Time, i: Interval) -> Optional[Interval]:
             minute=i.t_from.minute,
             DOW=i.t_from.DOW,
         )
+    if (
+        t_from is not None
+        and t_to is not None
+        and t_from.isDateTime
+        and t_to.isDateTime
+        and t_from.dt >= t_to.dt
+    ):
+        # shifting only one end into the afternoon must not invert the interval
+        return None
     return Interval(t_from=t_from, t_to=t_to)
 
 
